@@ -27,12 +27,12 @@ def spine_cfg():
 
 
 def spine_config(name, wins, maxd, opsel, poolsel, quants=QUANTS_SMALL, names=('n',), strs=(), workers=8,
-                 timeout=3000, params=None):
+                 timeout=3000, params=None, semlen=0):
     return dict(name=name, module='PregexSpine', cfg=spine_cfg(), workers=workers, timeout=timeout,
                 invariants=SPINE_INVARIANTS + SPINE_PROPS, params=params or {},
                 defs={'Wins': set(tuple(w) for w in wins), 'MaxD': maxd, 'OpSel': set(opsel),
                       'PoolSel': set(poolsel), 'Quants': set(quants), 'Names': set(names),
-                      'Strs': set(tuple(x) for x in strs)})
+                      'Strs': set(tuple(x) for x in strs), 'SemLen': semlen})
 
 
 FULL_POOL = {'empty', 'class', 'token', 'wb', 'alt', 'cat', 'quant', 'group', 'assert', 'pregex'}
@@ -42,9 +42,9 @@ FULL_POOL = {'empty', 'class', 'token', 'wb', 'alt', 'cat', 'quant', 'group', 'a
 def compose_configs(tier, seed):
     wins = UV.windows(tier, seed)
     if tier == 'quick':
-        return [spine_config('depth1-fullpool', wins[:3], 1, ALL_OPS, FULL_POOL | {'focusall'}),
+        return [spine_config('depth1-fullpool', wins[:3], 1, ALL_OPS, FULL_POOL | {'focusall'}, semlen=2),
                 spine_config('depth2-leaves', wins[:1], 2, ALL_OPS - {'enclose'}, set(), quants=QUANTS_TWO, names=())]
-    return [spine_config('depth1-fullpool', wins, 1, ALL_OPS | {'cond'}, FULL_POOL | {'focusall', 'lit3'}),
+    return [spine_config('depth1-fullpool', wins, 1, ALL_OPS | {'cond'}, FULL_POOL | {'focusall', 'lit3'}, semlen=2),
             spine_config('depth2-fullpool', wins[:4], 2, ALL_OPS, FULL_POOL),
             spine_config('depth3-leaves', wins[:2], 3, ALL_OPS - {'enclose'}, set(), quants=QUANTS_TWO, names=())]
 
@@ -212,6 +212,7 @@ def generic(prop, facets, rule, configs_fn, args_tier=None, seeds=(0,), mode='rr
            'facet_counts': {k[6:]: v for k, v in st.items() if k.startswith('facet:')},
            'facets_judged': sorted(facets), 'hash_seeds': list(seeds),
            'outcomes': {k[8:]: v for k, v in st.items() if k.startswith('outcome:')},
+           'oracle_calibrated_cases': st.get('calibrated', 0),
            'exhaustive': True}
     return report(prop, tier, seed, res.agg.failures, cov, time.time() - t0, ASSUME + list(extra_assume),
                   res.model_violations)
